@@ -2977,7 +2977,8 @@ func (c *BytecodeCompiler) compileForIn(
 		paramVar := c.defineLocal(p.Value, param.Location())
 		c.emitSetLocalPop(param.Location().StartPos.Line, paramVar.index)
 	default:
-		c.pattern(param, inExpressionType)
+		// the element is matched, not the collection
+		c.pattern(param, types.Any{})
 		jumpOverErrorOffset := c.emitJump(location.StartPos.Line, bytecode.JUMP_IF)
 
 		c.emitValue(
@@ -4330,7 +4331,8 @@ func (c *BytecodeCompiler) objectPattern(objectTypeNode ast.ComplexConstantNode,
 				false,
 			)
 
-			c.pattern(e.Value, valType)
+			// the value of the attribute is matched, not the object
+			c.pattern(e.Value, types.Any{})
 			c.emit(location.StartPos.Line, bytecode.POP_SKIP_ONE)
 			jmp := c.emitJump(location.StartPos.Line, bytecode.JUMP_UNLESS_NP)
 			jumpsToPatch = append(jumpsToPatch, jmp)
@@ -4400,7 +4402,8 @@ func (c *BytecodeCompiler) mapOrRecordPattern(typ types.Type, location *position
 			c.emitValue(value.ToSymbol(identifierToName(e.Key)).ToValue(), location)
 			c.compileSubscript(typ, location)
 
-			c.pattern(e.Value, typ)
+			// the value under the key is matched, not the collection
+			c.pattern(e.Value, types.Any{})
 			c.emit(location.StartPos.Line, bytecode.POP_SKIP_ONE)
 			jmp := c.emitJump(location.StartPos.Line, bytecode.JUMP_UNLESS_NP)
 			jumpsToPatch = append(jumpsToPatch, jmp)
@@ -4410,7 +4413,7 @@ func (c *BytecodeCompiler) mapOrRecordPattern(typ types.Type, location *position
 			c.compileNodeWithResult(e.Key)
 			c.compileSubscript(typ, location)
 
-			c.pattern(e.Value, typ)
+			c.pattern(e.Value, types.Any{})
 			c.emit(location.StartPos.Line, bytecode.POP_SKIP_ONE)
 			jmp := c.emitJump(location.StartPos.Line, bytecode.JUMP_UNLESS_NP)
 			jumpsToPatch = append(jumpsToPatch, jmp)
@@ -4608,7 +4611,8 @@ func (c *BytecodeCompiler) listOrTuplePattern(typ types.Type, location *position
 		c.emitValue(value.SmallInt(i).ToValue(), element.Location())
 		c.compileSubscript(typ, location)
 
-		c.pattern(element, typ)
+		// the element is matched, not the collection: its static type is not known here
+		c.pattern(element, types.Any{})
 		c.emit(location.StartPos.Line, bytecode.POP_SKIP_ONE)
 		jmp := c.emitJump(location.StartPos.Line, bytecode.JUMP_UNLESS_NP)
 		jumpsToPatch = append(jumpsToPatch, jmp)
@@ -4682,7 +4686,7 @@ func (c *BytecodeCompiler) listOrTuplePattern(typ types.Type, location *position
 			c.emitGetLocal(location.StartPos.Line, iteratorVar.index)
 			c.compileSubscript(typ, location)
 
-			c.pattern(element, typ)
+			c.pattern(element, types.Any{})
 			c.emit(location.StartPos.Line, bytecode.POP_SKIP_ONE)
 			jmp := c.emitJump(location.StartPos.Line, bytecode.JUMP_UNLESS_NP)
 			jumpsToPatch = append(jumpsToPatch, jmp)
